@@ -318,11 +318,11 @@ fn judge_report(cx: &mut Ctx, report: &TaxReport, cnt: &mut Counters) {
 fn variants(kind: &str, bases: &[NaiveDate], case_no: usize) -> Vec<Render> {
     let mut v = Vec::new();
     for (bi, b) in bases.iter().enumerate() {
-        v.push(Render { base: *b, order: Order::Canonical, fills: Fills::One, lower: false, dividends: false });
+        v.push(Render { base: *b, order: Order::Canonical, fills: Fills::One, lower: false, dividends: false, only: None });
         if bi > 0 { continue; }
         let orders = matches!(kind, "orders" | "all");
         let fills = matches!(kind, "fills" | "all");
-        let mk = |order, fills, lower| Render { base: *b, order, fills, lower, dividends: false };
+        let mk = |order, fills, lower| Render { base: *b, order, fills, lower, dividends: false, only: None };
         if orders {
             v.push(mk(Order::Reversed, Fills::One, false));
             v.push(mk(Order::SellsFirst, Fills::One, false));
@@ -338,8 +338,12 @@ fn variants(kind: &str, bases: &[NaiveDate], case_no: usize) -> Vec<Render> {
             v.push(mk(Order::Canonical, Fills::BuysSeparated, false));
             v.push(mk(Order::Shuffled(case_no as u64 + 13), Fills::BuysSeparated, true));
         }
+        if matches!(kind, "dividends") {
+            v.push(mk(Order::Canonical, Fills::EventsSplit, false));
+            v.push(mk(Order::Shuffled(case_no as u64 + 3), Fills::EventsSplit, false));
+        }
         if matches!(kind, "dividends" | "all") {
-            v.push(Render { base: *b, order: Order::Canonical, fills: Fills::One, lower: false, dividends: true });
+            v.push(Render { base: *b, order: Order::Canonical, fills: Fills::One, lower: false, dividends: true, only: None });
         }
     }
     v
@@ -539,6 +543,53 @@ fn main() {
             findings.extend(f);
             if findings.len() > 50 { break; }
         }
+        // C09: each security's figures in the combined ledger equal those of its transactions alone
+        // (implementation vs implementation; canonical and shuffled rendering)
+        if rec0.secs.len() >= 2 && findings.len() <= 50 {
+            for order in [Order::Canonical, Order::Shuffled(case_no as u64 + 99)] {
+                let rall = Render { base: bases[0], order, fills: Fills::One, lower: false, dividends: false, only: None };
+                let tall = render(rec0, &rall);
+                let cfg = &config;
+                let t2 = tall.clone();
+                let full: Res = guarded(move || calculate(&t2, None, None, cfg).map_err(|e| e.to_string()));
+                cnt.inc("executions");
+                for si in 0..rec0.secs.len() {
+                    let rone = Render { only: Some(si), ..rall };
+                    let tone = render(rec0, &rone);
+                    let t3 = tone.clone();
+                    let one: Res = guarded(move || calculate(&t3, None, None, cfg).map_err(|e| e.to_string()));
+                    cnt.inc("executions");
+                    cnt.inc("projection_comparisons");
+                    let sec = &rec0.secs[si];
+                    match (&full, &one) {
+                        (Ok(Ok(f)), Ok(Ok(o))) => {
+                            let mut sf = summarize(f, None);
+                            sf.disposals.retain(|k, _| k.0 == *sec);
+                            sf.holdings.retain(|k, _| k == sec);
+                            let so = summarize(o, None);
+                            let d = compare(&sf, &so, tol_proceeds(), false);
+                            if !d.deep.is_empty() || !d.shallow.is_empty() {
+                                let mut all = d.deep.clone();
+                                all.extend(d.shallow.clone());
+                                findings.push(Finding { prop: "C09".into(), kind: "other_security_changes_figures".into(), case: case_no,
+                                    detail: format!("{sec}: figures in the combined ledger differ from those of its transactions alone: {}", all.join("; ")),
+                                    input: to_dsl(&tall), data: json!({"diffs": all}) });
+                            }
+                        }
+                        (Ok(Ok(_)), Ok(Err(e))) => findings.push(Finding { prop: "C09".into(), kind: "other_security_changes_status".into(), case: case_no,
+                            detail: format!("{sec}: accepted in the combined ledger but refused alone: {e}"), input: to_dsl(&tall), data: json!({}) }),
+                        (Ok(Err(e)), Ok(Ok(_))) => {
+                            // fine if the refusal is about another security
+                            if e.contains(sec.as_str()) && !rec0.secs.iter().any(|o| o != sec && e.contains(o.as_str())) {
+                                findings.push(Finding { prop: "C09".into(), kind: "other_security_changes_status".into(), case: case_no,
+                                    detail: format!("{sec}: accepted alone but refused in the combined ledger: {e}"), input: to_dsl(&tall), data: json!({}) });
+                            }
+                        }
+                        _ => {}
+                    }
+                }
+            }
+        }
         (findings, cnt, observations)
     });
     let mut cnt = Counters::default();
@@ -568,7 +619,7 @@ fn main() {
         }
     }
     let sample: Vec<String> = cases.iter().step_by((cases.len() / 3).max(1)).take(3).map(|c| {
-        to_dsl(&render(c.recs[0], &Render { base: bases[0], order: Order::Canonical, fills: Fills::One, lower: false, dividends: false }))
+        to_dsl(&render(c.recs[0], &Render { base: bases[0], order: Order::Canonical, fills: Fills::One, lower: false, dividends: false, only: None }))
     }).collect();
     println!("{}", json!({"records": recs.len(), "cases": cases.len(), "findings": nf, "observations": nobs, "counters": cnt.map, "samples": sample}));
 }
